@@ -802,16 +802,58 @@ C_SUBJECT_OPS = ["char_out", "char_ret", "char_ret_len", "char_inout", "char_gro
 PAIR_OPS = ["pair_sum", "pair_ptr", "pair_out", "pair_ret", "pair_ret_ptr"]
 
 
-def ops_for(driver):
+# declarations of the C++ subject an op needs (subset variants wrap only some of them)
+_ITEM = ("Item",)
+OP_NEEDS = {
+    "make_item": ("Item", "makeItem"), "borrow_item": ("Item", "borrowItem"), "default_item": ("Item", "defaultItem"),
+    "copy_item": ("Item", "copyItem"), "use_item": ("Item", "useItem"), "sum_items": ("Item", "sumItems"),
+    "pass_item": ("Item", "passItem"), "ref_item": ("Item", "refItem"),
+    "make_box": ("Box", "makeBox"), "box_new": ("Box",), "box_value": ("Box",), "box_delete": ("Box",),
+    "box_release": ("Box",),
+    "str_ref": ("strRef",), "str_val": ("strVal",), "str_owned": ("strOwned",), "str_lib": ("strLib",),
+    "str_in": ("strIn",), "str_out": ("strOut",), "str_inout": ("strInout",), "char_out": ("charOut",),
+    "char_ret": ("charRet",), "char_inout": ("charInout",), "vec_sum": ("vecSum",), "vec_iota": ("vecIota",),
+    "vec_inc": ("vecInc",), "vec_alloc": ("vecAlloc",), "vec_ret": ("vecRet",), "vec_str_count": ("vecStrCount",),
+    "arr_new": ("arrNew",), "arr_lib": ("arrLib",), "arr_new_alloc": ("arrNewAlloc",), "cap_delete": ("arrNew",),
+    "cap_scope": ("arrNew",), "arr_pat": ("arrNew", "arrNewPat"), "arr_sum": ("arrSum",), "char_grow": ("charGrow",),
+    "vec_ret_d": ("vecRetD",), "char_arr": ("charArrLen",), "str_ptr_in": ("strPtrIn",), "str_val_in": ("strValIn",),
+    "char_ret_len": ("charRetLen",), "char_ret_null": ("charRetNull",), "vec_iota_d": ("vecIotaD",),
+    "arr_fill_out": ("arrFillOut",), "vec_ret_l": ("deep",), "vec_inout_alloc": ("vecInoutAlloc",),
+    "str_ptr_out": ("strPtrOut",), "vec_dot": ("vecDot",), "arr_weights": ("arrWeights",),
+    "cstr_ref": ("strRef",), "cstr_lib": ("strLib",), "cstr_owned": ("strOwned",), "cstr_in": ("strIn",),
+    "cstr_out": ("strOut",), "cstr_inout": ("strInout",),
+    "bad_vec_sum": ("vecSum",), "bad_arr_sum": ("arrSum",), "bad_arr_weights": ("arrWeights",),
+    "char_arr_none": ("charArrLen",),
+    # these call a fixed list of a dozen functions: only where the whole library is wrapped
+    "bad_arg": ("*",), "nomem": ("*",),
+}
+for _n in ("item_default", "item_val", "item_delete", "item_value", "item_set", "item_label", "item_twin", "assign",
+           "item_release", "item_combine"):
+    OP_NEEDS[_n] = _ITEM
+for _n in ("new", "get", "put", "delete", "release"):
+    OP_NEEDS["hi_" + _n] = OP_NEEDS["hd_" + _n] = ("Holder",)
+
+
+def available(op, have):
+    """have: None (the whole subject is wrapped) or the set of wrapped declaration names."""
+    if have is None:
+        return True
+    inner = op[5:] if op.startswith("leak_") else op
+    return all(n in have for n in OP_NEEDS.get(inner, ("?",)))
+
+
+def ops_for(driver, have=None):
     if driver == "cc":
         return list(C_SUBJECT_OPS)
     if driver == "fc":
         return list(C_SUBJECT_OPS) + ["arr_sum"] + PAIR_OPS
     if driver == "py":
-        return [o for o in OPS_COMMON if o not in NOT_PY] + PY_ONLY
-    if driver == "c":
-        return list(OPS_COMMON) + C_ONLY
-    return list(OPS_COMMON)
+        ops = [o for o in OPS_COMMON if o not in NOT_PY] + PY_ONLY
+    elif driver == "c":
+        ops = list(OPS_COMMON) + C_ONLY
+    else:
+        ops = list(OPS_COMMON)
+    return [o for o in ops if available(o, have)]
 
 
 def targeted_op(rng, m, enabled, uniq):
@@ -845,13 +887,13 @@ def targeted_op(rng, m, enabled, uniq):
     return rng.choice(cands) if cands else None
 
 
-def gen_sequence(rng, driver, length, enabled=None):
+def gen_sequence(rng, driver, length, enabled=None, have=None):
     """A valid op sequence and the model's expectations."""
-    enabled = enabled or ops_for(driver)
+    enabled = enabled or ops_for(driver, have)
     m = Model(driver)
     m.hot_slots = rng.sample(range(NH), rng.choice([1, 2, 2, 3]))
     # handle ops are always available to the targeted draws, whatever the swarm subset is
-    core = [o for o in ops_for(driver) if o in ("item_delete", "item_release", "cap_delete", "box_delete",
+    core = [o for o in ops_for(driver, have) if o in ("item_delete", "item_release", "cap_delete", "box_delete",
                                                  "box_release", "make_item", "item_val", "arr_new", "arr_pat",
                                                  "hi_new", "hd_new", "hi_delete", "hd_delete", "hi_release", "hd_release")]
     counter = [0]
